@@ -23,7 +23,7 @@ func propC09(c *ctx) error {
 		if e, ok := cs["envval"].(val); ok {
 			env = e
 		}
-		out := implEval(src, []any{env.g}, nil)
+		out := implEvalStable(src, []any{env.g})
 		nontrivial := strings.ContainsAny(src, "+-*/%<>&|^!=?")
 		res.eval(src+"|"+jstr(env.j), nontrivial, J{"src": src, "expect": expect})
 		res.count("impl_" + out.R)
